@@ -11,7 +11,7 @@ TOKENS = ["fn", "var", "const", "if", "else", "goto", "loop", "pub", "extern", "
 def classify(f, src=""):
     v = f[0]
     if v.startswith("ok"): return None
-    if v.startswith("err codes=[]"): return "silent-failure"
+    if v.startswith("err codes=[]") or v.startswith("silent-failure"): return "silent-failure"
     if v.startswith("err codes="): return None
     if v == "not-utf8": return None
     key = C.failure_key(v)
